@@ -241,7 +241,7 @@ func (ex *Exec) bodyEffects(fn *ssa.Function, l *Loop, fr *Frame, mods map[strin
 	con := ex.contractOf(fn)
 	scan := func(b *ssa.BasicBlock) {
 		for _, in := range b.Instrs {
-			ex.w.instrMods(in, mods)
+			ex.w.instrModsIn(in, mods, func(b *ssa.BasicBlock) bool { return l.body[b] })
 			switch in := in.(type) {
 			case *ssa.Store:
 				root, _ := rootOf(in.Addr)
